@@ -767,6 +767,43 @@ example : ∀ st : SemNewSt, st.mode = .open → st.pc = .excl → Call.quiet (.
   intro st hm hp
   simp [Call.quiet, SemNewSt.mayUnlink, hm, hp]
 
+/-! ### a lock semaphore re-created by a follower after a creator crash (finding) -/
+
+/-
+  FULL STATEMENT (false of the code):
+
+  theorem lock_is_mutex_while_segment_exists : for every schedule without an owner free of the segment
+      name `k` (no `shm_unlink (k)`), SIGKILLs included, all live handles of `k` lock ONE semaphore.
+
+  It fails after a creator is killed between `close` and its `p_semaphore_new` (crash points 3 and 4 of
+  `p_shm_new`): the segment exists without a lock semaphore; the next follower's OPEN-mode
+  `p_semaphore_new` creates it and therefore has `sem_created = TRUE`; when that follower — not an owner
+  of the segment — frees its handle, `pp_semaphore_clean_handle` unlinks the lock name while the segment
+  and the other handles live on; the next opener creates a SECOND lock semaphore.  `lock_is_mutex` /
+  `at_most_one_in_critical_section` exclude it through `QuietRun (.lock k)` (that `p_shm_free` is a call
+  that may unlink the lock key).
+-/
+
+/-- the witness: creator (process 0) killed after 4 system calls; followers 1 and 2 open; 1 frees; 3 opens -/
+def lockLostWitness : G :=
+  let g0 := (List.replicate 4 (Action.step 0 false)).foldl exec ((G.init id).start 0 (.newShm 0 0 64 false))
+  let g1 := g0.kill 0
+  let g2 := (g1.call 1 (.newShm 1 0 0 false)).call 2 (.newShm 2 0 0 false)
+  let g3 := g2.call 1 (.free 1)
+  g3.call 3 (.newShm 3 0 0 false)
+
+set_option maxRecDepth 100000 in
+/-- negation on the witness: no `shm_unlink` has happened and the segment name is still bound, handles 2
+    and 3 map the same segment, but they hold DIFFERENT lock semaphores of value 1 each, and both
+    `p_shm_lock` calls succeed at once -/
+theorem follower_free_unlinks_lock_false :
+    lockLostWitness.os.shmNames 0 = some 0 ∧
+    (lockLostWitness.log.all fun e => decide (e.sys ≠ .shmUnlink 0)) = true ∧
+    segOf lockLostWitness 2 = some 0 ∧ segOf lockLostWitness 3 = some 0 ∧
+    lockOf lockLostWitness 2 = some 0 ∧ lockOf lockLostWitness 3 = some 1 ∧
+    ((lockLostWitness.call 2 (.lock 2)).call 3 (.lock 3)).ret 2 = some .unit ∧
+    ((lockLostWitness.call 2 (.lock 2)).call 3 (.lock 3)).ret 3 = some .unit := by decide
+
 /-! ### non-vacuity of the interleaved theorems -/
 
 /-- computable form of `NoShmUnlink` -/
